@@ -10,6 +10,8 @@ Record plane_obs := PlaneObs {
   o_sd : list fl; o_sign : list Z; o_dist : list fl;
   o_front : list nat; o_front_inv : list nat; o_onfront : list nat; o_onfront_inv : list nat;
   o_front_pts : list (list fl); o_onfront_inv_pts : list (list fl);
+  o_front_inv_pts : list (list fl); o_onfront_pts : list (list fl);
+  o_single_sign : list Z; o_single_dist : list fl; o_single_mirror : list (list fl);
   o_proj : list (list fl); o_mirror : list (list fl);
   o_eq : list fl; o_canon : list fl; o_flip_eq : list fl;
   o_single_sd : list fl  (* signed_distance of each point passed alone *) }.
@@ -31,6 +33,18 @@ Definition mag (pl : plane Q) (ps : list (vec3 Q)) : Q :=
   fold_left (fun m p => Qmax' m (vmag p)) ps (Qmax' 1 (vmag (pref pl))).
 Definition decided (exact : bool) (m sd : Q) : bool := exact || negb (Qle_bool (Qabs sd) (band * m)).
 Definition all_decided exact pl ps := forallb (fun p => decided exact (mag pl ps) (plane_sd QOps pl p)) ps.
+(* per-point decisions: rows whose exact signed distance sits inside the rounding band are left out of the discrete
+   comparisons, all other rows are compared *)
+Definition decided_rows exact pl ps : list bool := map (fun p => decided exact (mag pl ps) (plane_sd QOps pl p)) ps.
+Definition keep_decided (dec : list bool) (idx : list nat) : list nat :=
+  filter (fun i => nth i dec false) idx.
+Fixpoint signs_agree (dec : list bool) (m o : list Z) : bool :=
+  match dec, m, o with
+  | [], [], [] => true
+  | d :: dr, a :: mr, b :: or_ => (negb d || Z.eqb a b) && signs_agree dr mr or_
+  | _, _, _ => false
+  end.
+Definition idx_agree dec (m o : list nat) : bool := nat_list_eqb (keep_decided dec m) (keep_decided dec o).
 
 Definition check_case (c : case) : bool :=
   match c with
@@ -45,13 +59,19 @@ Definition check_case (c : case) : bool :=
       list_close_mag m (eqlist (plane_equation QOps pl)) (o_eq o) &&
       list_close_mag m (eqlist (plane_equation QOps (flipped QOps pl))) (o_flip_eq o) &&
       vec_close_mag m (canonical_point QOps pl) (o_canon o) &&
+      list_close_mag m (map (plane_distance QOps pl) ps) (o_single_dist o) &&
+      vecs_close_mag m (map (plane_mirror QOps pl) ps) (o_single_mirror o) &&
+      (let dr := decided_rows exact pl ps in
+       signs_agree dr (map (plane_sign QOps pl) ps) (o_sign o) &&
+       signs_agree dr (map (plane_sign QOps pl) ps) (o_single_sign o) &&
+       idx_agree dr (points_in_front_idx QOps pl false ps) (o_front o) &&
+       idx_agree dr (points_in_front_idx QOps pl true ps) (o_front_inv o) &&
+       idx_agree dr (points_on_or_in_front_idx QOps pl false ps) (o_onfront o) &&
+       idx_agree dr (points_on_or_in_front_idx QOps pl true ps) (o_onfront_inv o)) &&
       (negb dec ||
-       (Z_list_eqb (map (plane_sign QOps pl) ps) (o_sign o) &&
-        nat_list_eqb (points_in_front_idx QOps pl false ps) (o_front o) &&
-        nat_list_eqb (points_in_front_idx QOps pl true ps) (o_front_inv o) &&
-        nat_list_eqb (points_on_or_in_front_idx QOps pl false ps) (o_onfront o) &&
-        nat_list_eqb (points_on_or_in_front_idx QOps pl true ps) (o_onfront_inv o) &&
-        vecs_close (points_in_front QOps pl false ps) (o_front_pts o) &&
+       (vecs_close (points_in_front QOps pl false ps) (o_front_pts o) &&
+        vecs_close (points_in_front QOps pl true ps) (o_front_inv_pts o) &&
+        vecs_close (points_on_or_in_front QOps pl false ps) (o_onfront_pts o) &&
         vecs_close (points_on_or_in_front QOps pl true ps) (o_onfront_inv_pts o)))
   | CShared ps e sd proj mirr =>
       list_close (sd_stack QOps ps e) sd &&
